@@ -539,3 +539,27 @@ def r5_12(rep):
         rep.check(ok, "descends-through-wrappers-only", "descends through %s" % ", ".join(sorted(kinds or [])) if ok else
                   "the fallback descends through %s: a cast changes the value, the literal below it is not the constant's value"
                   % ", ".join(sorted(kinds or ["an unconditional call"])), b.loc(c))
+
+
+@RULES.rule("R5.13", "cexpr's value for a macro is taken only when it parsed the whole replacement list", floor=1)
+def r5_13(rep):
+    """cexpr does not know `?:`, comparisons, `&&`, `||`.  `IdentifierParser::macro_definition` fails unless every token was consumed
+    (the macro is then left to the clang fallback or omitted); `IdentifierParser::expr` returns the value of the prefix it understood
+    together with the remaining tokens.  Using the latter and dropping the remainder emits `#define SELECT 1 ? BASE : 30` as 1 and
+    `#define AT_LEAST 5 >= 3` as 5 (seeded change).  In `parse_macro` the parser entry is `macro_definition`, or the remainder of any
+    other entry is checked for emptiness."""
+    prog = rep.prog
+    b = rep.need(prog.fn("ir::var::parse_macro"), "ir::var::parse_macro")
+    calls = [c for c in b.calls(lambda x: x["k"] == "MCall" and "cexpr::expr::IdentifierParser" in (x.get("callee") or x.get("resolved") or ""))]
+    calls = [c for c in calls if c["name"] not in ("new",)]
+    rep.need(calls, "the cexpr parser call in parse_macro")
+    for c in calls:
+        if c["name"] == "macro_definition":
+            rep.ok("whole-macro-parsed", "`macro_definition` (asserts a full parse)", b.loc(c))
+            continue
+        # another entry: is the remainder looked at?
+        src = " ".join((y.get("name") or "") for y in b.walk() if y["k"] == "MCall")
+        checked = "is_empty" in src or "assert_full_parse" in " ".join((y.get("callee") or "") for y in b.walk() if y["k"] == "Call")
+        rep.check(checked, "whole-macro-parsed", "`%s`, remainder checked" % c["name"] if checked else
+                  "`IdentifierParser::%s` returns the value of whatever prefix it could parse; the remaining tokens are not checked, so a macro "
+                  "with an operator cexpr does not know is emitted with the value of its prefix" % c["name"], b.loc(c))
